@@ -157,7 +157,12 @@ func lookAlikeNames(g *core.G, n *core.N) {
 
 // applyScript runs an edit script on the real tree; unknown / failing steps are reported in the log.
 func applyScript(t *tree.Tree, script []string) (log []string) {
-	for _, st := range script {
+	return applyScriptWatch(t, script, nil)
+}
+
+// applyScriptWatch calls watch(i) after step i.
+func applyScriptWatch(t *tree.Tree, script []string, watch func(i int)) (log []string) {
+	for si, st := range script {
 		f := strings.Split(st, ":")
 		res := "ok"
 		p, msg := core.Safe(func() {
@@ -224,6 +229,25 @@ func applyScript(t *tree.Tree, script []string) (log []string) {
 				if _, _, _, err := t.GraftTipOnEdge(nn, e); err != nil {
 					res = "err"
 				}
+			case "singles":
+				t.RemoveSingleNodes()
+			case "midpoint":
+				if err := t.RerootMidPoint(); err != nil {
+					res = "err"
+				}
+			case "outgroup":
+				var names []string
+				for _, x := range strings.Split(f[1], ",") {
+					if x != "" {
+						nm, _ := core.Unescape(x)
+						names = append(names, nm)
+					}
+				}
+				if err := t.RerootOutGroup(false, false, names...); err != nil {
+					res = "err"
+				}
+			case "clone":
+				*t = *(t.Clone())
 			case "internal":
 				// marker read by doIndex
 			default:
@@ -234,6 +258,9 @@ func applyScript(t *tree.Tree, script []string) (log []string) {
 			res = "panic:" + core.Escape(msg)
 		}
 		log = append(log, res)
+		if watch != nil {
+			watch(si)
+		}
 	}
 	return
 }
@@ -270,7 +297,20 @@ func genScript(c *core.Ctx, n *core.N) []string {
 	paths := n.Paths()
 	tips := n.TipNames()
 	for i := 0; i < k; i++ {
-		switch g.Intn(10) {
+		switch g.Intn(14) {
+		case 10:
+			s = append(s, "singles")
+		case 11:
+			s = append(s, "midpoint")
+		case 12:
+			// an outgroup of one or two tips (escaped names joined by commas inside the step)
+			og := core.Escape(tips[g.Intn(len(tips))])
+			if g.Chance(0.5) {
+				og += "," + core.Escape(tips[g.Intn(len(tips))])
+			}
+			s = append(s, "outgroup:"+og)
+		case 13:
+			s = append(s, "clone")
 		case 0, 1:
 			p := paths[g.Intn(len(paths))]
 			if len(p) > 2 {
@@ -318,7 +358,7 @@ func genScript(c *core.Ctx, n *core.N) []string {
 		ok := true
 		for _, st := range s[1:] {
 			switch strings.SplitN(st, ":", 2)[0] {
-			case "reroot", "rotate", "unroot", "collapse", "resolve":
+			case "reroot", "rotate", "unroot", "collapse", "resolve", "singles", "midpoint":
 			default:
 				ok = false
 			}
@@ -330,39 +370,9 @@ func genScript(c *core.Ctx, n *core.N) []string {
 	return s
 }
 
-func doIndex(c *core.Ctx, n *core.N, script []string) {
-	t, err := core.Build(n)
-	if err != nil {
-		panic(err)
-	}
-	log := applyScript(t, script)
-	after, wf := core.Alpha(t)
-	if !wf.OK() && !orientationOnly(wf) {
-		// not this property's business (C03): the case is reported as skipped.  A heap whose only
-		// problem is the orientation of branches still has a tree shape: it goes on, and the
-		// enumerations / indexes computed from it are judged against that shape.
-		c.Emit("C04.index", n.Dump(), core.StrList(script), "malformed", core.Escape(strings.Join(wf.Problems, "; ")), core.StrList(log), "", "", "")
-		return
-	}
-	var rerr error
-	// a script ending with "internal" (tip set and names untouched since the last ReinitIndexes):
-	// the indexes are recomputed with ReinitInternalIndexes, which keeps the tip index
-	internal := len(script) > 0 && script[len(script)-1] == "internal"
-	if p, msg := core.Safe(func() {
-		if internal {
-			t.ReinitInternalIndexes()
-		} else {
-			rerr = t.ReinitIndexes()
-		}
-	}); p {
-		c.Emit("C04.index", n.Dump(), core.StrList(script), "panic:"+core.Escape(msg), after.Dump(), "", "", "", "")
-		return
-	}
-	if rerr != nil {
-		c.Emit("C04.index", n.Dump(), core.StrList(script), "err", after.Dump(), "", "", "", "")
-		return
-	}
-	// names by rank
+// observeIndex reads what the indexes say right now: the tip names by rank and, per branch in alpha
+// order, bitset / NumTipsLeft / NumTipsRight / TopoDepth / HashCode.
+func observeIndex(t *tree.Tree) (string, string) {
 	tips := t.Tips()
 	ranks := make([]string, len(tips))
 	okRanks := true
@@ -387,6 +397,95 @@ func doIndex(c *core.Ctx, n *core.N, script []string) {
 		}
 		fmt.Fprintf(&b, "%s:%d:%d:%s:%d;", bitString(ea.e, len(tips)), ea.e.NumTipsLeft(), ea.e.NumTipsRight(), tds, ea.e.HashCode())
 	}
+	return rk, b.String()
+}
+
+// ownRecompute: the last step of the history is an edit that recomputes the indexes by itself, it
+// succeeded, and the tip index it relies on was current (computed by an earlier step, no rename / graft
+// since).  Then what the tree says straight after it — before any explicit ReinitIndexes — is judged too.
+func ownRecompute(script, log []string) bool {
+	cur := false
+	last := false
+	for i, st := range script {
+		op := strings.SplitN(st, ":", 2)[0]
+		ok := i < len(log) && log[i] == "ok"
+		last = false
+		switch op {
+		case "reinit":
+			if ok {
+				cur, last = true, true
+			}
+		case "shuffle", "unroot", "remove":
+			// ReinitIndexes / UpdateTipIndex + ReinitInternalIndexes inside
+			if ok {
+				cur, last = true, true
+			} else if op == "remove" {
+				cur = false
+			}
+		case "reroot", "resolve", "collapse", "singles", "midpoint", "outgroup":
+			// ReinitInternalIndexes inside: needs a current tip index
+			if !ok && op != "reroot" {
+				cur = false
+			}
+			last = ok && cur
+		case "rotate", "internal":
+		case "clone":
+			cur = ok // Clone ends with UpdateTipIndex on the copy (tipIndex is never nil)
+		default: // rename, graft, unknown
+			cur = false
+		}
+	}
+	return last
+}
+
+func doIndex(c *core.Ctx, n *core.N, script []string) {
+	t, err := core.Build(n)
+	if err != nil {
+		panic(err)
+	}
+	// the heap is looked at after every step: the first step that leaves it malformed is reported
+	firstBad := -1
+	log := applyScriptWatch(t, script, func(i int) {
+		if firstBad < 0 {
+			if _, w := core.Alpha(t); !w.OK() && !orientationOnly(w) {
+				firstBad = i
+			}
+		}
+	})
+	after, wf := core.Alpha(t)
+	if !wf.OK() && !orientationOnly(wf) {
+		// A heap whose only problem is the orientation of branches still has a tree shape: it goes on, and
+		// the enumerations / indexes computed from it are judged against that shape.  Otherwise the driver
+		// decides from the step that broke it: a step that returned an error is C03's business, a step that
+		// reported success is judged here.
+		c.Emit("C04.index", n.Dump(), core.StrList(script), "malformed", core.Escape(strings.Join(wf.Problems, "; ")), core.StrList(log), strconv.Itoa(firstBad), "", "", "", "")
+		return
+	}
+	rk0, obs0 := "", ""
+	if ownRecompute(script, log) {
+		if p, _ := core.Safe(func() { rk0, obs0 = observeIndex(t) }); p {
+			rk0, obs0 = "PANIC,", "panic"
+		}
+	}
+	var rerr error
+	// a script ending with "internal" (tip set and names untouched since the last ReinitIndexes):
+	// the indexes are recomputed with ReinitInternalIndexes, which keeps the tip index
+	internal := len(script) > 0 && script[len(script)-1] == "internal"
+	if p, msg := core.Safe(func() {
+		if internal {
+			t.ReinitInternalIndexes()
+		} else {
+			rerr = t.ReinitIndexes()
+		}
+	}); p {
+		c.Emit("C04.index", n.Dump(), core.StrList(script), "panic:"+core.Escape(msg), after.Dump(), "", "", "", "", rk0, obs0)
+		return
+	}
+	if rerr != nil {
+		c.Emit("C04.index", n.Dump(), core.StrList(script), "err", after.Dump(), "", "", "", "", rk0, obs0)
+		return
+	}
+	rk, obsStr := observeIndex(t)
 	// the three enumerations as positions in the alpha walk (judged by the driver against the dump)
 	walk := walkEdges(t)
 	pos := map[*tree.Edge]int{}
@@ -411,7 +510,7 @@ func doIndex(c *core.Ctx, n *core.N, script []string) {
 	if a2, wf2 := core.Alpha(t); wf2.OK() || orientationOnly(wf2) {
 		after2 = a2.Dump()
 	}
-	c.Emit("C04.index", n.Dump(), core.StrList(script), "ok", after.Dump(), rk, b.String(), enum, after2)
+	c.Emit("C04.index", n.Dump(), core.StrList(script), "ok", after.Dump(), rk, obsStr, enum, after2, rk0, obs0)
 }
 
 // orientationOnly: every problem of the heap is a branch not oriented away from the root.
